@@ -272,6 +272,31 @@ def analytic_case(qr, heom, numpy, ck):
         tr = float(numpy.abs(numpy.trace(rt.data, axis1=1, axis2=2) - 1.0).max())
         if tr > 1e-9:
             ck.fail("dyn:trace", "API-built hierarchy: trace not conserved", {"depth": depth}, tr, 0)
+    # a propagator object created while a units or basis context was open and used after it was closed: the same dynamics
+    try:
+        import io, contextlib
+        from quantarhei import eigenbasis_of
+        hy_ = prop.hy
+        hy_.reset_ados()
+        with contextlib.redirect_stdout(io.StringIO()):
+            base_ = numpy.array(heom.KTHierarchyPropagator(ta, hy_).propagate(qr.ReducedDensityMatrix(data=r0.copy())).data).copy()
+        for where_ in ("energy_units('1/cm')", "eigenbasis_of(H)"):
+            hy_.reset_ados()
+            with contextlib.redirect_stdout(io.StringIO()):
+                if where_.startswith("energy"):
+                    with energy_units("1/cm"):
+                        p2_ = heom.KTHierarchyPropagator(ta, hy_)
+                else:
+                    with eigenbasis_of(hy_.ham):
+                        p2_ = heom.KTHierarchyPropagator(ta, hy_)
+                r2_ = numpy.array(p2_.propagate(qr.ReducedDensityMatrix(data=r0.copy())).data)
+            d2_ = float(numpy.abs(r2_ - base_).max()) if numpy.all(numpy.isfinite(r2_)) else float("inf")
+            ck.case(("analytic-propagator-created-in-context", where_), nontrivial=True, kind="analytic")
+            if not d2_ <= 1e-9:
+                ck.fail("dyn:propagator-created-in-context", "a hierarchy propagator created inside %s and used after the context was closed gives other dynamics than one "
+                        "created outside" % where_, {"depth": depth, "created_inside": where_}, d2_)
+    except Exception as e:
+        ck.fail("raises:propagator-created-in-context", "raised %r" % (e,), {})
     # a history on one propagator: the optional mode that integrates the auxiliary operators only, then an ordinary run again
     try:
         import io, contextlib
